@@ -106,12 +106,16 @@ def _uses(q, x) -> bool:
     return False
 
 
-def positions(q, path=(), dead_elem=False):
+def positions(q, path=(), dead_elem=False, skip=None):
     """paths to numeric scalar nodes and to scalar method-call nodes at LIVE positions: the element expression of
     a sequence whose consumer ignores its variable (`.Select(lambda x: 2.5)`) is never translated, so a construct
     grafted there is not `used` by the query"""
     out = []
+    if skip is None:
+        skip = qgen.dead_nodes(q)
     if isinstance(q, dict):
+        if id(q) in skip:
+            return out  # a component of a first-step tuple that no later step looks at
         k = q.get("k")
         if k == "meth" and q["n"] in ("i", "j", "d", "g", "f"):
             out.append(("meth", path))
@@ -128,14 +132,14 @@ def positions(q, path=(), dead_elem=False):
                     pass_dead = dead_elem or ignores
                 else:
                     pass_dead = ignores
-                out += positions(v, path + (key,), pass_dead)
+                out += positions(v, path + (key,), pass_dead, skip)
             elif key == "f" and k == "Select" and dead_elem:
                 continue  # this Select's element expression is never looked at
             elif key in ("s", "f", "a", "b", "c", "o", "seed"):
-                out += positions(v, path + (key,))
+                out += positions(v, path + (key,), False, skip)
             elif key == "es":
                 for i, e in enumerate(v):
-                    out += positions(e, path + (key, i))
+                    out += positions(e, path + (key, i), False, skip)
     return out
 
 
